@@ -53,6 +53,12 @@
 //	string                    → the list of its bytes (len, s[i], append(b, s...), string(b), []byte(s)); range over a
 //	                            string (runes) is refused; a constant string is the list of its bytes.
 //	if with a return / panic anywhere inside an arm → the rest of the block is duplicated into both arms.
+//	*bytes.Buffer parameter   → the list of the bytes written (buf.WriteByte(b) / Write(p) / WriteString(s) as statements =
+//	                            append); returned in front of the results; such a function cannot be called from
+//	                            translated code.
+//	f.M(..) inside an expression (M assigns receiver fields / can panic) → bound to a fresh variable in front of the
+//	                            statement, in Go's order of evaluation (lexical, arguments before the call); refused
+//	                            under && / ||, in loop conditions, and when the statement also reads a field it assigns.
 //	nil slices are the empty list (x == nil on a slice is refused).
 //	"segments": a consecutive run of statements of a function, translated as a function of the variables it reads
 //	to the variables it assigns (or to its return value).
@@ -110,28 +116,31 @@ type Targets struct {
 }
 
 type tr struct {
-	fset     *token.FileSet
-	info     *types.Info
-	pkg      *types.Package
-	known    map[string]bool // translated function names (for calls)
-	notes    []string
-	errs     []string
-	curFn    string
-	segIn    map[types.Object]bool
-	helpers  []string
-	selTy    map[string]ty
-	swCount  int
-	tmpCount int
-	useCopy  bool
-	rngCount int
-	cnt      map[string]int // helper definitions (switch, loop) are numbered per translated function / segment
-	indent   int
-	decls    map[string]*ast.FuncDecl // every function of the package by name (methods as Recv.Method)
-	finfo    map[string]*fnInfo
-	nonnil   map[string]bool // functions that always return a non-nil error (fmt.Errorf, errors.New + pinned externs)
-	opt      bool            // the function / segment being translated can panic: its result is an Option
-	resTypes []types.Type    // result types of the Go function being translated (types an untyped nil in a return)
-	outs     []string        // receiver fields the function being translated assigns (returned in front of the results)
+	fset      *token.FileSet
+	info      *types.Info
+	pkg       *types.Package
+	known     map[string]bool // translated function names (for calls)
+	notes     []string
+	errs      []string
+	curFn     string
+	segIn     map[types.Object]bool
+	helpers   []string
+	selTy     map[string]ty
+	swCount   int
+	tmpCount  int
+	useCopy   bool
+	rngCount  int
+	cnt       map[string]int // helper definitions (switch, loop) are numbered per translated function / segment
+	indent    int
+	decls     map[string]*ast.FuncDecl // every function of the package by name (methods as Recv.Method)
+	finfo     map[string]*fnInfo
+	nonnil    map[string]bool          // functions that always return a non-nil error (fmt.Errorf, errors.New + pinned externs)
+	hoisted   map[*ast.CallExpr]string // effectful calls inside an expression, bound to a variable in front of the statement
+	hoistN    int
+	hoistDone map[ast.Stmt]bool
+	opt       bool         // the function / segment being translated can panic: its result is an Option
+	resTypes  []types.Type // result types of the Go function being translated (types an untyped nil in a return)
+	outs      []string     // receiver fields the function being translated assigns (returned in front of the results)
 }
 
 // fnInfo: how a translated function is called (see "methods with a struct receiver" in the header comment)
@@ -142,6 +151,7 @@ type fnInfo struct {
 	outs     []fieldRef // receiver fields assigned (directly or by a callee), in declaration order
 	opt      bool       // contains `panic(…)` or calls a function that does: result is an Option
 	nres     int        // number of Go results
+	bufParam bool       // has a *bytes.Buffer parameter (such a function is translated but cannot be called)
 	busy     bool
 }
 
@@ -173,7 +183,43 @@ type ty struct {
 	elems  []ty
 }
 
+func isBytesBuffer(T types.Type) bool {
+	if p, ok := T.(*types.Pointer); ok {
+		T = p.Elem()
+	}
+	nt, ok := T.(*types.Named)
+	return ok && nt.Obj().Pkg() != nil && nt.Obj().Pkg().Path() == "bytes" && nt.Obj().Name() == "Buffer"
+}
+
+// bufWrite: `buf.WriteByte(e)` / `buf.Write(p)` / `buf.WriteString(s)` on a bytes.Buffer VARIABLE
+func (t *tr) bufWrite(e ast.Expr) (*ast.Ident, *ast.CallExpr, bool) {
+	c, ok := e.(*ast.CallExpr)
+	if !ok || len(c.Args) != 1 {
+		return nil, nil, false
+	}
+	se, ok := c.Fun.(*ast.SelectorExpr)
+	if !ok {
+		return nil, nil, false
+	}
+	id, ok := se.X.(*ast.Ident)
+	if !ok {
+		return nil, nil, false
+	}
+	v, isVar := t.info.Uses[id].(*types.Var)
+	if !isVar || !isBytesBuffer(v.Type()) {
+		return nil, nil, false
+	}
+	switch se.Sel.Name {
+	case "WriteByte", "Write", "WriteString":
+		return id, c, true
+	}
+	return nil, nil, false
+}
+
 func (t *tr) tyOf(T types.Type) (ty, bool) {
+	if isBytesBuffer(T) {
+		return ty{kind: "bytes"}, true // a bytes.Buffer that is only written to: the list of the bytes written so far
+	}
 	switch u := T.Underlying().(type) {
 	case *types.Basic:
 		switch u.Kind() {
@@ -556,8 +602,14 @@ func (t *tr) call(x *ast.CallExpr) string {
 	if t.isNonNil(x) {
 		return "true"
 	}
+	if name, ok := t.hoisted[x]; ok {
+		return name
+	}
 	if cn, _ := t.callee(x); cn != "" {
 		fi := t.fninfo(cn)
+		if fi.bufParam {
+			return t.fail(x, "call of %s, which has a *bytes.Buffer parameter", cn)
+		}
 		if fi.opt || len(fi.outs) > 0 {
 			return t.fail(x, "call of %s (assigns receiver fields or can panic) inside an expression: only as a statement or the sole right-hand side", cn)
 		}
@@ -664,6 +716,13 @@ func (t *tr) fninfo(name string) *fnInfo {
 				fi.nres += n
 			} else {
 				fi.nres++
+			}
+		}
+	}
+	if fd.Type.Params != nil {
+		for _, f := range fd.Type.Params.List {
+			if T := t.info.Types[f.Type].Type; T != nil && isBytesBuffer(T) {
+				fi.bufParam = true
 			}
 		}
 	}
@@ -819,6 +878,139 @@ func (t *tr) callArgs(c *ast.CallExpr, fi *fnInfo) string {
 	return "(" + fi.def + " " + strings.Join(as, " ") + ")"
 }
 
+// hoist: the effectful calls (see `effectful`) that occur INSIDE the expressions of a statement are bound, in Go's order
+// of evaluation (lexical left to right, arguments before the call), to fresh variables in front of the statement. Only
+// calls that are evaluated unconditionally are hoisted (not under && / || or a closure); the statement's other
+// sub-expressions may not mention a receiver field that a hoisted call assigns (Go leaves that order unspecified).
+func (t *tr) hoist(exprs []ast.Expr, top bool, cont func() string) string {
+	type hc struct {
+		c  *ast.CallExpr
+		fi *fnInfo
+	}
+	var found []hc
+	bad := ""
+	var walk func(n ast.Node, cond bool)
+	walk = func(n ast.Node, cond bool) {
+		switch x := n.(type) {
+		case nil:
+			return
+		case *ast.FuncLit:
+			return
+		case *ast.BinaryExpr:
+			walk(x.X, cond)
+			walk(x.Y, cond || x.Op == token.LAND || x.Op == token.LOR)
+			return
+		case *ast.CallExpr:
+			if t.isNonNil(x) {
+				return
+			}
+			for _, a := range x.Args {
+				walk(a, cond)
+			}
+			walk(x.Fun, cond)
+			if _, done := t.hoisted[x]; done {
+				return
+			}
+			if c, fi := t.effectful(x); c != nil {
+				if cond {
+					bad = "a call that assigns receiver fields / can panic under && or ||"
+				}
+				if fi.nres != 1 {
+					bad = "a call with several results inside an expression"
+				}
+				found = append(found, hc{c, fi})
+			}
+			return
+		case *ast.ParenExpr:
+			walk(x.X, cond)
+		case *ast.UnaryExpr:
+			walk(x.X, cond)
+		case *ast.IndexExpr:
+			walk(x.X, cond)
+			walk(x.Index, cond)
+		case *ast.SliceExpr:
+			walk(x.X, cond)
+			walk(x.Low, cond)
+			walk(x.High, cond)
+		case *ast.SelectorExpr:
+			walk(x.X, cond)
+		case *ast.StarExpr:
+			walk(x.X, cond)
+		case *ast.CompositeLit:
+			for _, e := range x.Elts {
+				walk(e, cond)
+			}
+		case *ast.KeyValueExpr:
+			walk(x.Value, cond)
+		}
+	}
+	for _, e := range exprs {
+		if e != nil {
+			walk(e, false)
+		}
+	}
+	if top && len(found) > 0 {
+		// a statement that IS the call (statement / sole right-hand side) is handled by bindCall itself
+		last := found[len(found)-1]
+		if len(exprs) == 1 && ast.Unparen(exprs[0]) == ast.Expr(last.c) {
+			found = found[:len(found)-1]
+		}
+	}
+	if len(found) == 0 {
+		return cont()
+	}
+	if bad != "" {
+		return t.pad() + t.fail(exprs[0], "%s", bad) + "\n"
+	}
+	// fields assigned by the hoisted calls must not be read elsewhere in the statement
+	assignedF := map[string]bool{}
+	inCall := map[ast.Node]bool{}
+	for _, h := range found {
+		inCall[h.c] = true
+		if se, ok := h.c.Fun.(*ast.SelectorExpr); ok {
+			if id, ok := se.X.(*ast.Ident); ok {
+				for _, f := range h.fi.outs {
+					assignedF[id.Name+"."+f.name] = true
+				}
+			}
+		}
+	}
+	for _, e := range exprs {
+		if e == nil {
+			continue
+		}
+		ast.Inspect(e, func(n ast.Node) bool {
+			if se, ok := n.(*ast.SelectorExpr); ok {
+				if id, ok := se.X.(*ast.Ident); ok && assignedF[id.Name+"."+se.Sel.Name] {
+					bad = "the statement reads " + id.Name + "." + se.Sel.Name + ", which a call inside it assigns"
+				}
+			}
+			return true
+		})
+	}
+	if bad != "" {
+		return t.pad() + t.fail(exprs[0], "%s", bad) + "\n"
+	}
+	var bind func(i int) string
+	bind = func(i int) string {
+		if i == len(found) {
+			out := cont()
+			for _, h := range found {
+				delete(t.hoisted, h.c) // the bindings are local to this translation of the statement
+			}
+			return out
+		}
+		t.hoistN++
+		name := fmt.Sprintf("hoist%d", t.hoistN)
+		h := found[i]
+		return t.bindCall(h.c, h.fi, []string{name}, func() string {
+			t.hoisted[h.c] = name
+			return bind(i + 1)
+		})
+	}
+	return bind(0)
+}
+
 // bindCall: `lhs := recv.M(args)` / `recv.M(args)` for an effectful callee
 func (t *tr) bindCall(c *ast.CallExpr, fi *fnInfo, lhs []string, cont func() string) string {
 	p := t.pad()
@@ -955,6 +1147,9 @@ func (t *tr) assigned(stmts []ast.Stmt) []string {
 			case *ast.IncDecStmt:
 				add(x.X)
 			case *ast.ExprStmt:
+				if id, _, ok := t.bufWrite(x.X); ok {
+					add(id)
+				}
 				if c, ok := x.X.(*ast.CallExpr); ok {
 					if id, ok := c.Fun.(*ast.Ident); ok && id.Name == "copy" && len(c.Args) == 2 {
 						d := c.Args[0]
@@ -1064,6 +1259,44 @@ func (t *tr) stmts(list []ast.Stmt, tail func() string, results []string) string
 	}
 	s, rest := list[0], list[1:]
 	cont := func() string { return t.stmts(rest, tail, results) }
+	if !t.hoistDone[s] {
+		var exprs []ast.Expr
+		top := false
+		switch x := s.(type) {
+		case *ast.ReturnStmt:
+			exprs = x.Results
+		case *ast.AssignStmt:
+			for _, l := range x.Lhs {
+				if ix, ok := l.(*ast.IndexExpr); ok {
+					exprs = append(exprs, ix.Index)
+				}
+			}
+			exprs = append(exprs, x.Rhs...)
+			top = len(exprs) == 1
+		case *ast.ExprStmt:
+			if !isPanic(x) {
+				exprs, top = []ast.Expr{x.X}, true
+			}
+		case *ast.IfStmt:
+			if x.Init == nil {
+				exprs = []ast.Expr{x.Cond}
+			}
+		case *ast.DeclStmt:
+			if gd, ok := x.Decl.(*ast.GenDecl); ok {
+				for _, sp := range gd.Specs {
+					if vs, ok := sp.(*ast.ValueSpec); ok {
+						exprs = append(exprs, vs.Values...)
+					}
+				}
+			}
+		}
+		if len(exprs) > 0 {
+			t.hoistDone[s] = true
+			out := t.hoist(exprs, top, func() string { return t.stmts(list, tail, results) })
+			delete(t.hoistDone, s)
+			return out
+		}
+	}
 	switch x := s.(type) {
 	case *ast.EmptyStmt:
 		return cont()
@@ -1176,6 +1409,13 @@ func (t *tr) stmts(list []ast.Stmt, tail func() string, results []string) string
 		}
 		if c, fi := t.effectful(x.X); c != nil {
 			return t.bindCall(c, fi, nil, cont)
+		}
+		if id, c, ok := t.bufWrite(x.X); ok {
+			arg := t.expr(c.Args[0])
+			if c.Fun.(*ast.SelectorExpr).Sel.Name == "WriteByte" {
+				arg = "[" + arg + "]"
+			}
+			return fmt.Sprintf("%slet %s := %s ++ %s\n", t.pad(), leanName(id.Name), leanName(id.Name), arg) + cont()
 		}
 		// copy(dst[a:], src) / copy(dst, src) on byte slices, dst a variable
 		if c, ok := x.X.(*ast.CallExpr); ok {
@@ -1707,7 +1947,7 @@ func (t *tr) params(fl *ast.FieldList, body ast.Node) ([]string, []string) {
 	for _, f := range fl.List {
 		for _, id := range f.Names {
 			obj := t.info.Defs[id]
-			if st, _ := structOf(obj.Type()); st != nil && body != nil {
+			if st, _ := structOf(obj.Type()); st != nil && body != nil && !isBytesBuffer(obj.Type()) {
 				// a struct parameter is passed as the fields the body uses (read-only; assigned fields of a pointer
 				// RECEIVER are handled by fninfo)
 				seenF := map[types.Object]bool{}
@@ -1783,6 +2023,30 @@ func (t *tr) function(fd *ast.FuncDecl) string {
 		for _, f := range fi.outs {
 			t.outs = append(t.outs, rn+"_"+f.name)
 			resTys = append(resTys, f.y.lean())
+		}
+	}
+	// a *bytes.Buffer parameter that is written to is returned (in front of the results, after the receiver fields)
+	if fd.Type.Params != nil {
+		for _, f := range fd.Type.Params.List {
+			for _, id := range f.Names {
+				obj := t.info.Defs[id]
+				if obj == nil || !isBytesBuffer(obj.Type()) {
+					continue
+				}
+				written := false
+				ast.Inspect(fd.Body, func(n ast.Node) bool {
+					if es, ok := n.(*ast.ExprStmt); ok {
+						if w, _, ok := t.bufWrite(es.X); ok && t.info.Uses[w] == obj {
+							written = true
+						}
+					}
+					return !written
+				})
+				if written {
+					t.outs = append(t.outs, id.Name)
+					resTys = append(resTys, "List (BitVec 8)")
+				}
+			}
 		}
 	}
 	pre := ""
@@ -2092,7 +2356,7 @@ func main() {
 		conf := types.Config{Importer: importer.ForCompiler(fset, "source", nil), Error: func(error) {}, FakeImportC: true}
 		pkg, _ := conf.Check(bp.ImportPath, fset, files, info)
 		t := &tr{fset: fset, info: info, pkg: pkg, known: map[string]bool{}, selTy: map[string]ty{}, cnt: map[string]int{},
-			finfo: map[string]*fnInfo{}, nonnil: map[string]bool{"fmt.Errorf": true, "errors.New": true}}
+			finfo: map[string]*fnInfo{}, hoisted: map[*ast.CallExpr]string{}, hoistDone: map[ast.Stmt]bool{}, nonnil: map[string]bool{"fmt.Errorf": true, "errors.New": true}}
 		decls := map[string]*ast.FuncDecl{}
 		t.decls = decls
 		for _, f := range files {
